@@ -81,10 +81,16 @@ class _Exec:
                 return self.tok(E(arg, raise_on_unrecognized=False))
             if k == 'g':
                 return self.tok(E[arg])
+            if k == 'G':                                   # E[<int>] is E(<int>): strict
+                return self.tok(E[int(arg)])
             if k == 'i':
                 return ','.join(self.tok(m) for m in list(E)) or '-'
             if k == 'l':
                 return str(len(E))
+            if k == 'q':                                   # a numpy integer, as the file index hands them over
+                import numpy as np
+                bits, v = arg.split(':')
+                return self.tok(E(getattr(np, 'uint' + bits)(int(v)), raise_on_unrecognized=False))
             if k in 'aA':
                 bits, v = arg.split(':')
                 bits, v = int(bits), int(v)
@@ -110,8 +116,18 @@ def _child_mask(script):
         E = c17_extract.resolve(script['enum'])
     ex = _Exec(E)
     pre = script.get('pre', [])
+    done = []
+
+    def convert(v):
+        done.append('c%d' % v)
+        try:
+            E(v, raise_on_unrecognized=False)
+        except BaseException as e:
+            return {'decorate': 'pre', 'pre_ops': list(done), 'pre_error': _err(e)}
     for v in pre[:len(pre) // 2]:
-        E(v, raise_on_unrecognized=False)
+        r = convert(v)
+        if r:
+            return r
     if not script.get('package_mask'):
         try:
             @enum_bitmask(E, offset=script['offset'], define_bits=script['define_bits'])
@@ -120,7 +136,9 @@ def _child_mask(script):
         except BaseException as e:
             return {'decorate': _err(e)}
     for v in pre[len(pre) // 2:]:
-        E(v, raise_on_unrecognized=False)
+        r = convert(v)
+        if r:
+            return r
     vals = list(M._enum_values)
     res = {'decorate': 'ok', 'offset': int(M._enum_offset), 'enum_values': ','.join(ex.tok(m) for m in vals) or '-',
            'attrs': ','.join('%s=%d' % (n, int(m.value)) for n, m in M.__members__.items()) or '-', 'rows': [], 'tv': []}
@@ -159,7 +177,7 @@ def _child(script):
     return _child_mask(script) if script.get('kind') == 'mask' else _child_enum(script)
 
 
-def run_forked(scripts, nproc=4):
+def run_forked(scripts, nproc=4, timeout=600):
     """Each script in its own forked child; returns the list of results (or {'infra': text})."""
     results = [None] * len(scripts)
     pending = list(enumerate(scripts))
@@ -186,8 +204,14 @@ def run_forked(scripts, nproc=4):
                     os._exit(code)
             os.close(w)
             live[r] = (i, pid, [])
-        ready, _, _ = select.select(list(live), [], [], 600)
+        ready, _, _ = select.select(list(live), [], [], timeout)
         if not ready:
+            for _, pid, _ in live.values():
+                try:
+                    os.kill(pid, 9)
+                    os.waitpid(pid, 0)
+                except OSError:
+                    pass
             raise fv.InfraError('enum worker timed out')
         for r in ready:
             data = os.read(r, 1 << 20)
@@ -230,7 +254,7 @@ class Info:
 
 def checkpoint(info, seen, rng, full):
     ops = ['i', 'l']
-    ops += ['g' + n for n, _ in self_names(info)]
+    ops += ['g' + n for n, _ in info.defn]
     ops += ['g' + n for n in ABSENT if n]
     if full:
         ops += ['g' + n.lower() for n, _ in info.defn[:6]] + ['n' + n for n, _ in info.defn[:6]] + ['nNO_SUCH_MEMBER']
@@ -242,16 +266,13 @@ def checkpoint(info, seen, rng, full):
     return ops
 
 
-def self_names(info):
-    return info.defn
-
-
 def enum_script(info, vals, rng, label, every, adapter_bits=0, per_value_strict=True):
     ops = checkpoint(info, [], rng, True)
     seen = []
     for j, v in enumerate(vals):
         use_adapter = adapter_bits and 0 <= v < (1 << adapter_bits) and j % 3 == 2
-        conv = ('a%d:%d' % (adapter_bits, v)) if use_adapter else 'c%d' % v
+        conv = ('a%d:%d' % (adapter_bits, v)) if use_adapter else \
+            ('q16:%d' % v) if (j % 4 == 1 and 0 <= v < 65536) else 'c%d' % v
         strict = ('A%d:%d' % (adapter_bits, v)) if use_adapter else ('d%d' % v if j % 5 == 4 else 's%d' % v)
         if per_value_strict and j % 2:
             ops += [strict, conv, strict]        # refused before it was ever seen, and after
@@ -261,6 +282,8 @@ def enum_script(info, vals, rng, label, every, adapter_bits=0, per_value_strict=
             ops += [conv]
         if j % 7 == 3:
             ops += ['c%d' % v, 'g%s_%d' % (PREFIX, v)]     # a second lenient conversion returns the same member
+        if j % 11 == 5:
+            ops += ['G%d' % v]
         seen.append(v)
         if every and (j + 1) % every == 0 and j + 1 < len(vals):
             ops += checkpoint(info, seen, rng, False)
@@ -362,11 +385,11 @@ def mask_scripts(ctx, infos, masks):
 # ---- model requests --------------------------------------------------------------------------------------------------
 
 def model_op(op):
-    if op[0] == 'a':
+    if op[0] in 'aq':
         return 'c' + op.split(':')[1]
     if op[0] == 'A':
         return 's' + op.split(':')[1]
-    if op[0] == 'd':
+    if op[0] in 'dG':
         return 's' + op[1:]
     return op
 
@@ -402,10 +425,10 @@ def judge_enum(ctx, info, script, toks):
         if '?' in t:
             add('result-not-a-member', 'result is not a member of the class', i)
             continue
-        if k in 'ca':
-            v = int(op.split(':')[1]) if k == 'a' else int(op[1:])
+        if k in 'caq':
+            v = int(op.split(':')[1]) if k in 'aq' else int(op[1:])
             conversions += 1
-            site = 'call-lenient' if k == 'c' else 'adapter-lenient'
+            site = {'c': 'call-lenient', 'a': 'adapter-lenient', 'q': 'call-lenient-numpy'}[k]
             m = MEMBER.match(t)
             if not m:
                 add(site + '/raises', 'lenient conversion of %d raised' % v, i)
@@ -416,9 +439,9 @@ def judge_enum(ctx, info, script, toks):
             elif v not in info.values and m.group(3) != 'U':
                 add(site + '/unknown-not-flagged', 'lenient conversion of the undefined value %d is not flagged unrecognized' % v, i)
             lenient_seen.add(v)
-        elif k in 'sAd':
+        elif k in 'sAdG':
             v = int(op.split(':')[1]) if k == 'A' else int(op[1:])
-            site = {'s': 'call-strict', 'A': 'adapter-strict', 'd': 'call-default'}[k]
+            site = {'s': 'call-strict', 'A': 'adapter-strict', 'd': 'call-default', 'G': 'getitem-int'}[k]
             if v in info.values:
                 if t != info.member(v):
                     add(site + '/defined-value-not-its-member', 'strict conversion of the defined value %d is not %s' % (v, info.member(v)), i)
@@ -461,6 +484,11 @@ def judge_mask(ctx, script, res, lines, pend):
     """Oracle for one mask script and the model requests for it."""
     bad = []
     tag = script.get('package_mask') or '%s offset=%d' % (script['enum'], script['offset'])
+    if res['decorate'] == 'pre':
+        bad.append(('C17/call-lenient/raises', '%s: lenient conversion `%s` raised %s after %s'
+                    % (script['enum'], res['pre_ops'][-1], res['pre_error'], res['pre_ops'][:-1]),
+                    {'script': {'kind': 'enum', 'enum': script['enum'], 'ops': res['pre_ops'], 'label': 'mask-pre', 'oracle': True}}))
+        return bad
     if res['decorate'] != 'ok':
         bad.append(('C17/mask/decorator-raises', '%s: enum_bitmask raised %s' % (tag, res['decorate']), None))
         return bad
@@ -526,7 +554,7 @@ def translate(ctx):
 
 def run_scripts(ctx, infos, scripts):
     by = {i.q: i for i in infos}
-    results = run_forked(scripts, nproc=6 if ctx.thorough else 4)
+    results = run_forked(scripts, nproc=6 if ctx.thorough else 4, timeout=5400 if ctx.thorough else 600)
     lines, pend = [], []
     reported = set(sig for sig, _, _ in ctx.violations)
     for sc, r in zip(scripts, results):
@@ -557,7 +585,7 @@ def run_scripts(ctx, infos, scripts):
         if kind == 'enum':
             sc, info = a, b
             impl = ';'.join(got)
-            ctx.case('%s|%s' % (info.q, ';'.join(sc['ops'])), nontrivial=any(o[0] in 'caN' for o in sc['ops']))
+            ctx.case('%s|%s' % (info.q, ';'.join(sc['ops'])), nontrivial=any(o[0] in 'caqN' for o in sc['ops']))
             if impl != mo:
                 it, mt = impl.split(';'), mo.split(';')
                 j = next((x for x in range(min(len(it), len(mt))) if it[x] != mt[x]), min(len(it), len(mt)))
@@ -585,7 +613,7 @@ def shrink_enum(ctx, info, sc, i, sig=None):
     ops = sc['ops'][:i + 1]
     last = ops[-1]
     head = [last] if last[0] in 'ilgn' else []
-    keep = [o for o in ops[:-1] if o[0] in 'caN']
+    keep = [o for o in ops[:-1] if o[0] in 'caqN']
 
     def fails(body):
         cand = dict(sc, ops=head + body + [last])
@@ -626,7 +654,6 @@ def search(ctx):
     """Stage E: the same oracle with another seed's worth of scripts."""
     ctx.notes.append('stage E: widened search')
     data = c17_extract.extract(fv.REPO)
-    ctx.thorough_saved = ctx.thorough
     run(ctx, data)
 
 
